@@ -214,6 +214,12 @@ def judge_c13a(spec: dict, rec: dict, fault) -> list:
                       f'{state} task never returned (blocked {where})'))
             break
         got = classify(op, hev[i])
+        if not c0_alive:
+            # An earlier call already ended this client's connection (the
+            # raising task's error may land on any call after its submit;
+            # the static model cannot know on which): from then on every
+            # call finds the connection gone, a sleep stays local.
+            adm = {'ok'} if op[0] == 'sleep' else {'dead'}
         if got in ('boom', 'reject', 'dead') or got.startswith('error'):
             c0_alive = False
         if got not in adm:
@@ -268,6 +274,12 @@ def judge_c13a(spec: dict, rec: dict, fault) -> list:
                     f'history {spec["name"]}: the other client never '
                     f'finished {k}; events {by}'))
                 break
+            if k == 'status' and by[j][2] == 'ok' and by[j][3] == 'RUNNING' \
+                    and spec.get('bystander_may_still_run'):
+                # under a non-default schedule the bystander's virtual sleep
+                # may end before its task does: RUNNING is then a correct
+                # answer (the value of result() below is still judged)
+                continue
             if by[j][2] != okexc or (val is not None and by[j][3] != val):
                 v.append((
                     'bystander-disturbed' + (':after-foreign-id' if touched
@@ -357,7 +369,8 @@ def run(ctx: Ctx) -> None:
     if not ctx.quick and st['complete']:
         # the short histories again under every 1-deviation schedule
         t0 = time.time()
-        short = [hist_spec('d11', h, i) for i, h in enumerate(histories(2))]
+        short = [dict(hist_spec('d11', h, i), bystander_may_still_run=True)
+                 for i, h in enumerate(histories(2))]
         st2 = explore.explore(ctx, short, 'c13a', 1, 'deviation',
                               deadline=t0 + 1200,
                               part='api-histories/deviation<=1')
